@@ -680,7 +680,7 @@ func (m *vfModel) stepRelease() {
 	if len(done) > 0 && rapid.IntRange(0, 3).Draw(m.t, "relkind") != 0 {
 		c = done
 	}
-	e := c[rapid.IntRange(0, len(c)-1).Draw(m.t, "rel")]
+	e := c[vfhelp.PickN(m.t, "rel", len(c))]
 	m.begin("release")
 	m.tracef("release(#%d,%v)", e.id, e.open())
 	if e.open() {
@@ -708,7 +708,7 @@ func (m *vfModel) lazyParked() []*vfEnt {
 
 func (m *vfModel) stepLazyReceive() {
 	c := m.lazyParked()
-	e := c[rapid.IntRange(0, len(c)-1).Draw(m.t, "lazyrecv")]
+	e := c[vfhelp.PickN(m.t, "lazyrecv", len(c))]
 	m.begin("lazyReceive")
 	m.tracef("recv(#%d)", e.id)
 	select {
@@ -761,7 +761,7 @@ func (m *vfModel) pickProp(pred func(*vfWProp) bool) (int, *vfWProp) {
 	if len(idx) == 0 {
 		return -1, nil
 	}
-	i := idx[rapid.IntRange(0, len(idx)-1).Draw(m.t, "pick")]
+	i := idx[vfhelp.PickN(m.t, "pick", len(idx))]
 	return i, m.propInRaft[i]
 }
 
@@ -830,7 +830,7 @@ func (m *vfModel) openOf(kind int) []*vfEnt {
 // complete, commit or drop the local request (request.go:1160).
 func (m *vfModel) stepPropForeign() {
 	c := m.openOf(vfKProp)
-	e := c[rapid.IntRange(0, len(c)-1).Draw(m.t, "foreign")]
+	e := c[vfhelp.PickN(m.t, "foreign", len(c))]
 	cid, sid := e.clientID+10, e.seriesID
 	if rapid.Bool().Draw(m.t, "fser") {
 		cid, sid = e.clientID, e.seriesID+7
@@ -925,7 +925,7 @@ func (m *vfModel) liveBatches(pred func(*vfBatch) bool) []*vfBatch {
 
 func (m *vfModel) stepReadReady() {
 	c := m.liveBatches(func(b *vfBatch) bool { return b.ready == 0 })
-	b := c[rapid.IntRange(0, len(c)-1).Draw(m.t, "batch")]
+	b := c[vfhelp.PickN(m.t, "batch", len(c))]
 	lo := uint64(1)
 	if m.appliedHi > 2 {
 		lo = m.appliedHi - 2
@@ -942,7 +942,7 @@ func (m *vfModel) stepReadReady() {
 
 func (m *vfModel) stepReadDropped() {
 	c := m.liveBatches(func(b *vfBatch) bool { return b.ready == 0 })
-	b := c[rapid.IntRange(0, len(c)-1).Draw(m.t, "batch")]
+	b := c[vfhelp.PickN(m.t, "batch", len(c))]
 	m.begin("readDropped")
 	if !m.closed[vfKRead] {
 		for _, e := range b.ents {
@@ -1023,7 +1023,7 @@ func (m *vfModel) pickCC(pred func(*vfWKey) bool) (int, *vfWKey) {
 	if len(idx) == 0 {
 		return -1, nil
 	}
-	i := idx[rapid.IntRange(0, len(idx)-1).Draw(m.t, "pickcc")]
+	i := idx[vfhelp.PickN(m.t, "pickcc", len(idx))]
 	return i, m.ccInRaft[i]
 }
 
@@ -1382,7 +1382,7 @@ func (m *vfModel) runOne(prof []int) {
 			acts[i].w = 0
 		}
 	}
-	x := rapid.IntRange(0, total-1).Draw(m.t, "act")
+	x := vfhelp.PickN(m.t, "act", total) // uniform: rapid.IntRange is biased towards the range ends
 	for i := range acts {
 		if acts[i].w == 0 {
 			continue
@@ -1451,7 +1451,7 @@ func vfRunPendingCase(t *rapid.T, st *vfhelp.Stats, maxSteps int) {
 	if rapid.IntRange(0, 5).Draw(t, "snappy") == 0 {
 		ct = config.Snappy
 	}
-	profIdx := rapid.IntRange(0, len(vfProfiles)-1).Draw(t, "profile")
+	profIdx := vfhelp.PickN(t, "profile", len(vfProfiles))
 	m := &vfModel{
 		t: t, st: st, notifyCommit: notifyCommit,
 		n:      newVFNode(notifyCommit, shards, pq, rq, seed, ct),
@@ -1463,7 +1463,7 @@ func vfRunPendingCase(t *rapid.T, st *vfhelp.Stats, maxSteps int) {
 	for k := range m.byKey {
 		m.byKey[k] = make(map[uint64]*vfEnt)
 	}
-	steps := 10 + rapid.IntRange(0, maxSteps-10).Draw(t, "steps")
+	steps := 10 + vfhelp.PickN(t, "steps", maxSteps-9)
 	for i := 0; i < steps; i++ {
 		m.runOne(vfProfiles[profIdx])
 	}
